@@ -220,8 +220,11 @@ def h_lhs(ctx, n, m, perm):
 
 def h_sample_tt(ctx, n, r):
     """Structured sample set for incomplete SVD: advertised block layout."""
+    h_sample_tt_body(ctx, n, r, _gen(ctx, 'free'))
+
+
+def h_sample_tt_body(ctx, n, r, g):
     d = len(n)
-    g = _gen(ctx, 'free')
     I, idx, idx_many = teneva.sample_tt(n, r, seed=g)
     ctx.claim('width', I.shape[1] == d)
     ctx.claim('offsets_start_at_zero_and_cover', int(idx[0]) == 0 and int(idx[-1]) == I.shape[0] and len(idx) == d + 1)
@@ -242,6 +245,13 @@ def h_sample_tt(ctx, n, r):
             ok = ok and all(int(x) == int(y) for x, y in zip(blk[t, k + 1:], blk[b, k + 1:]))
     ctx.claim('block_layout', ok)
     ctx.claim('bounds', all(0 <= int(I[t, k]) < n[k] for t in range(I.shape[0]) for k in range(d)))
+
+
+def h_sample_tt_history(ctx, n, r_first, r):
+    """The sample set for expected rank r does not depend on an earlier call
+    with another expected rank (same integer seed, same shape)."""
+    teneva.sample_tt(n, r_first, seed=7)
+    h_sample_tt_body(ctx, n, r, 7)
 
 
 def h_rand_samplers(ctx, n, m):
@@ -286,6 +296,7 @@ def instances(tier):
             out.append({'func': 'h_lhs', 'params': {'n': n, 'm': m, 'perm': perm}})
     for n, r in ([([2, 2], 2), ([2, 2, 2], 2), ([3, 2], 3)] if quick else [([2, 2], 2), ([2, 2, 2], 2), ([3, 2], 3), ([3, 3], 2), ([3, 3, 3], 3)]):
         out.append({'func': 'h_sample_tt', 'params': {'n': n, 'r': r}})
+    out.append({'func': 'h_sample_tt_history', 'params': {'n': [2, 2], 'r_first': 1, 'r': 2}})
     out.append({'func': 'h_rand_samplers', 'params': {'n': [2, 3], 'm': 2}})
     return out
 
